@@ -1,9 +1,10 @@
 /-
-Level B, closure / goto core of the generator model (Model/Lr1Gen.lean): the worklist closure
-returns a set that contains its seed, is closed under "an item with `X` after the dot brings
-`[X → . γ, c]` for every `c ∈ FIRST(β a)`" (the validator's `VClosure`, over the generator's own
-FIRST table), and adds only dot-0 items that some item of the result brings in; every state of
-`gen G` is such a set, state 0 is the closure of `[S' → . start, $]`.
+Level B, part 2: closure / goto core of the generator model (Model/Lr1Gen.lean): the worklist
+closure returns a set that contains its seed, is closed under "an item with `X` after the dot
+brings `[X → . γ, c]` for every `c ∈ FIRST(β a)`" (the validator's `VClosure`, over the generator's
+own FIRST table), and adds only dot-0 items that some item of the result brings in; it preserves
+every item predicate that the one-step closure preserves; and the order in which it finds the
+items is a justification order (the validator's `VOrder`).
 -/
 import Emboss.Model.Lr1Gen
 import Emboss.Lemmas.Lr1Basic
@@ -193,139 +194,149 @@ theorem gotoSet_spec {I J : List Item} {x : Nat} (h : gotoSet C I x = some J) :
       exact Or.inr ⟨it, hit, by simpa using hn, rfl⟩
     · exact Or.inl h0
 
-/-! ### the tables do not depend on the item sets of the certificate -/
+/-! ### predicates preserved by the one-step closure hold for the whole closure -/
 
-def withItems (C : Cert) (items : Array (List Item)) : Cert := { C with items := items }
+theorem closeLoop_all {P : Item → Prop} (hstep : ∀ it, P it → ∀ y ∈ succsOf C it, P y) :
+    ∀ (f : Nat) (todo acc S : List Item), closeLoop C f todo acc = some S →
+      (∀ x ∈ todo, x ∈ acc) → (∀ x ∈ acc, P x) → ∀ x ∈ S, P x
+  | _, [], acc, S, h, _, hP => by
+    simp only [closeLoop] at h
+    cases h; exact hP
+  | 0, _ :: _, _, _, h, _, _ => by simp [closeLoop] at h
+  | f + 1, it :: todo, acc, S, h, hsub, hP => by
+    simp only [closeLoop] at h
+    obtain ⟨h1, _, _, h4, h5, _⟩ := addNew_spec (succsOf C it) acc todo
+    have hit : it ∈ acc := hsub it List.mem_cons_self
+    refine closeLoop_all hstep f _ _ S h ?_ ?_
+    · intro x hx
+      rcases h5 x hx with ht | ha
+      · exact h1 x (hsub x (List.mem_cons_of_mem _ ht))
+      · exact ha
+    · intro x hx
+      rcases h4 x hx with ha | hs
+      · exact hP x ha
+      · exact hstep it (hP it hit) x hs
 
-theorem firstSeq_withItems (C : Cert) (items : Array (List Item)) : ∀ (β t : List Nat),
-    (withItems C items).firstSeq β t = C.firstSeq β t
-  | [], _ => rfl
-  | x :: β, t => by
-    simp only [Cert.firstSeq, firstSeq_withItems C items β t]
-    rfl
+theorem closure_all {P : Item → Prop} (hstep : ∀ it, P it → ∀ y ∈ succsOf C it, P y)
+    {seed S : List Item} (h : closure C seed = some S) (hP : ∀ x ∈ seed, P x) : ∀ x ∈ S, P x :=
+  closeLoop_all hstep _ seed seed S h (fun _ hx => hx) hP
 
-theorem succsOf_withItems (C : Cert) (items : Array (List Item)) (it : Item) :
-    succsOf (withItems C items) it = succsOf C it := by
-  unfold succsOf
-  have h1 : (withItems C items).ruleAt it.pi = C.ruleAt it.pi := rfl
-  rw [h1]
-  cases C.ruleAt it.pi with
-  | none => rfl
-  | some p =>
-    simp only []
-    cases p.rhs[it.dot]? with
-    | none => rfl
-    | some x =>
-      simp only [firstSeq_withItems]
-      rfl
+/-! ### the discovery order is a justification order -/
 
-theorem Closed.withItems {S : List Item} (items : Array (List Item)) (h : Closed C S) :
-    Closed (withItems C items) S := by
-  intro it hit y hy
-  rw [succsOf_withItems] at hy
-  exact h it hit y hy
+/-- `JustOrder` read from the end of the list: every dot-0 item other than the seed has, further
+down the list, an item whose next symbol is its left-hand side -/
+def RJ (C : Cert) : List Item → Prop
+  | [] => True
+  | it :: rest =>
+    (it.dot = 0 → it.pi = C.seedIdx ∨ ∃ p ∈ C.ruleAt it.pi, ∃ y ∈ rest, p.lhs ∈ C.nextSyms y) ∧ RJ C rest
 
-/-! ### the states of `gen G` -/
+/-- every item the one-step closure brings in is a production of the symbol after the dot -/
+def SuccLhs (C : Cert) : Prop :=
+  ∀ it, ∀ j ∈ succsOf C it, ∃ p ∈ C.ruleAt j.pi, p.lhs ∈ C.nextSyms it
 
-def StatesOK (C : Cert) (I0 : List Item) (st : St) : Prop :=
-  st.states[0]? = some (Gen.norm I0) ∧ ∀ I ∈ st.states.toList, Closed C I
+theorem addNew_RJ : ∀ (js acc todo : List Item), RJ C acc →
+    (∀ j ∈ js, j.dot = 0 → ∃ p ∈ C.ruleAt j.pi, ∃ y ∈ acc, p.lhs ∈ C.nextSyms y) → RJ C (addNew acc todo js).1
+  | [], _, _, h, _ => h
+  | j :: js, acc, todo, h, hj => by
+    unfold addNew
+    split
+    · exact addNew_RJ js acc todo h (fun k hk => hj k (List.mem_cons_of_mem _ hk))
+    · refine addNew_RJ js (j :: acc) (j :: todo) ⟨fun h0 => Or.inr (hj j List.mem_cons_self h0), h⟩ ?_
+      intro k hk h0
+      obtain ⟨p, hp, y, hy, hl⟩ := hj k (List.mem_cons_of_mem _ hk) h0
+      exact ⟨p, hp, y, List.mem_cons_of_mem _ hy, hl⟩
 
-theorem expand_ok {I0 I : List Item} : ∀ (xs : List Nat) (st : St) (row : List (Nat × Nat)) (st' : St)
-    (row' : List (Nat × Nat)), expand C I xs st row = some (st', row') → StatesOK C I0 st → StatesOK C I0 st'
-  | [], st, row, st', row', h, hs => by
-    simp only [expand, Option.some.injEq, Prod.mk.injEq] at h
-    rw [← h.1]; exact hs
-  | x :: xs, st, row, st', row', h, hs => by
-    simp only [expand] at h
-    cases hg : gotoSet C I x with
-    | none => simp [hg] at h
-    | some J =>
-      simp only [hg] at h
-      cases hi : stateIndex st (Gen.norm J) with
-      | some k =>
-        simp only [hi] at h
-        exact expand_ok xs st _ st' row' h hs
-      | none =>
-        simp only [hi] at h
-        refine expand_ok xs _ _ st' row' h ⟨?_, ?_⟩
-        · have h0 := hs.1
-          have hlt : 0 < st.states.size := by
-            by_cases hz : 0 < st.states.size
-            · exact hz
-            · simp [Array.getElem?_eq_none (Nat.le_of_not_lt hz)] at h0
-          show (st.states.push (Gen.norm J))[0]? = _
-          rw [Array.getElem?_push, if_neg (Nat.ne_of_lt hlt)]
-          exact h0
-        · intro K hK
-          simp only [Array.toList_push, List.mem_append, List.mem_singleton] at hK
-          rcases hK with hK | rfl
-          · exact hs.2 K hK
-          · exact (gotoSet_spec hg).2.1.norm
+theorem closeLoop_RJ (hs : SuccLhs C) : ∀ (f : Nat) (todo acc S : List Item),
+    closeLoop C f todo acc = some S → (∀ x ∈ todo, x ∈ acc) → RJ C acc → RJ C S
+  | _, [], acc, S, h, _, hR => by
+    simp only [closeLoop] at h
+    cases h; exact hR
+  | 0, _ :: _, _, _, h, _, _ => by simp [closeLoop] at h
+  | f + 1, it :: todo, acc, S, h, hsub, hR => by
+    simp only [closeLoop] at h
+    obtain ⟨h1, _, _, _, h5, _⟩ := addNew_spec (succsOf C it) acc todo
+    have hit : it ∈ acc := hsub it List.mem_cons_self
+    refine closeLoop_RJ hs f _ _ S h ?_ ?_
+    · intro x hx
+      rcases h5 x hx with ht | ha
+      · exact h1 x (hsub x (List.mem_cons_of_mem _ ht))
+      · exact ha
+    · refine addNew_RJ _ _ _ hR ?_
+      intro j hj _
+      obtain ⟨p, hp, hl⟩ := hs it j hj
+      exact ⟨p, hp, it, hit, hl⟩
 
-theorem bfs_ok {I0 : List Item} : ∀ (f i : Nat) (st st' : St), bfs C f i st = some st' →
-    StatesOK C I0 st → StatesOK C I0 st'
-  | 0, _, _, _, h, _ => by simp [bfs] at h
-  | f + 1, i, st, st', h, hs => by
-    simp only [bfs] at h
-    cases hI : st.states[i]? with
-    | none => simp only [hI, Option.some.injEq] at h; rw [← h]; exact hs
-    | some I =>
-      simp only [hI] at h
-      cases he : expand C I (normN (I.flatMap C.nextSyms)) st [] with
-      | none => simp [he] at h
-      | some r =>
-        obtain ⟨st1, row⟩ := r
-        simp only [he] at h
-        have h1 := expand_ok (I0 := I0) _ _ _ _ _ he hs
-        exact bfs_ok f (i + 1) _ st' h ⟨h1.1, h1.2⟩
+def seenOf (C : Cert) (l : List Item) (seen : List Nat) : List Nat :=
+  l.foldl (fun s it => C.nextSyms it ++ s) seen
+
+theorem mem_seenOf {a : Nat} : ∀ {l : List Item} {seen : List Nat},
+    (a ∈ seen ∨ ∃ y ∈ l, a ∈ C.nextSyms y) → a ∈ seenOf C l seen
+  | [], _, h => by
+    rcases h with h | ⟨_, hy, _⟩
+    · exact h
+    · cases hy
+  | b :: l, seen, h => by
+    simp only [seenOf, List.foldl_cons]
+    refine mem_seenOf (l := l) ?_
+    rcases h with h | ⟨y, hy, h⟩
+    · exact Or.inl (List.mem_append_right _ h)
+    · rcases List.mem_cons.mp hy with rfl | hy
+      · exact Or.inl (List.mem_append_left _ h)
+      · exact Or.inr ⟨y, hy, h⟩
+
+theorem justOrder_snoc {z : Item} : ∀ {l : List Item} {seen : List Nat}, JustOrder C seen l →
+    (z.dot = 0 → z.pi = C.seedIdx ∨ ∃ p ∈ C.ruleAt z.pi, p.lhs ∈ seenOf C l seen) →
+    JustOrder C seen (l ++ [z])
+  | [], _, _, hz => ⟨hz, trivial⟩
+  | _ :: l, _, h, hz => ⟨h.1, justOrder_snoc (l := l) h.2 hz⟩
+
+theorem RJ.justOrder : ∀ {acc : List Item}, RJ C acc → JustOrder C [] acc.reverse
+  | [], _ => trivial
+  | it :: rest, h => by
+    rw [List.reverse_cons]
+    refine justOrder_snoc (RJ.justOrder h.2) ?_
+    intro h0
+    rcases h.1 h0 with hs | ⟨p, hp, y, hy, hl⟩
+    · exact Or.inl hs
+    · exact Or.inr ⟨p, hp, mem_seenOf (Or.inr ⟨y, List.mem_reverse.mpr hy, hl⟩)⟩
+
+/-- The closure's items, in the order found, are in justification order, provided the dot-0 items
+of the seed are the seed production's. -/
+theorem closure_justOrder (hs : SuccLhs C) {seed S : List Item} (h : closure C seed = some S)
+    (h0 : ∀ x ∈ seed, x.dot = 0 → x.pi = C.seedIdx) : JustOrder C [] S.reverse := by
+  refine (closeLoop_RJ hs _ seed seed S h (fun _ hx => hx) ?_).justOrder
+  clear h
+  induction seed with
+  | nil => trivial
+  | cons a l ih =>
+    exact ⟨fun hd => Or.inl (h0 a List.mem_cons_self hd), ih (fun x hx => h0 x (List.mem_cons_of_mem _ hx))⟩
+
+theorem mem_insertN {x z : Nat} : ∀ {l : List Nat}, z ∈ insertN x l ↔ z = x ∨ z ∈ l
+  | [] => by simp [insertN]
+  | y :: ys => by
+    unfold insertN
+    by_cases h1 : x = y
+    · subst h1; simp
+    · simp only [h1, if_false]
+      by_cases h2 : x < y
+      · simp [h2]
+      · simp only [h2, if_false, List.mem_cons, mem_insertN (l := ys)]
+        constructor
+        · rintro (h | h | h)
+          · exact Or.inr (Or.inl h)
+          · exact Or.inl h
+          · exact Or.inr (Or.inr h)
+        · rintro (h | h | h)
+          · exact Or.inr (Or.inl h)
+          · exact Or.inl h
+          · exact Or.inr (Or.inr h)
+
+theorem mem_normN {z : Nat} : ∀ {l : List Nat}, z ∈ normN l ↔ z ∈ l
+  | [] => by simp [normN]
+  | x :: xs => by
+    have ih := mem_normN (z := z) (l := xs)
+    simp only [normN, List.foldr_cons, List.mem_cons] at ih ⊢
+    rw [mem_insertN, ih]
 
 end Gen
-
-open Gen in
-/-- Every state of the generated automaton is closed (the validator's `VClosure` holds for the
-generator's output, over the generator's own FIRST table), state 0 contains `[S' → . start, $]`
-and has only dot-0 items. -/
-theorem gen_closure_start {G : Grammar} {o : Gen.Out} (h : gen G = some o) :
-    VClosure (listMem o.cert) o.cert ∧ VStart (listMem o.cert) G o.cert := by
-  unfold gen at h
-  cases hC : Gen.tables G with
-  | none => simp [hC] at h
-  | some C =>
-    simp only [hC] at h
-    cases hI : Gen.closure C [⟨C.seedIdx, 0, G.eoi⟩] with
-    | none => simp [hI] at h
-    | some I0 =>
-      simp only [hI] at h
-      cases hb : Gen.bfs C (1000000 + Gen.itemBound C) 0 ⟨#[Gen.norm I0], #[]⟩ with
-      | none => simp [hb] at h
-      | some st =>
-        simp only [hb, Option.some.injEq] at h
-        obtain ⟨c1, c2, c3⟩ := closure_spec hI
-        have hok : StatesOK C I0 st := bfs_ok (I0 := I0) _ _ _ _ hb
-          ⟨by simp, by
-            intro I hI'
-            simp only [List.mem_singleton] at hI'
-            have : I = Gen.norm I0 := by simpa using hI'
-            rw [this]; exact c2.norm⟩
-        subst h
-        show VClosure (listMem (withItems C st.states)) (withItems C st.states) ∧
-          VStart (listMem (withItems C st.states)) G (withItems C st.states)
-        constructor
-        · intro s hs it hit p hp x hx j hj c hc
-          simp only [listMem, Cert.itemsOf] at hit ⊢
-          have hs' : s < st.states.size := hs
-          have he : (withItems C st.states).items[s]? = some st.states[s] := Array.getElem?_eq_getElem hs'
-          simp only [he, Option.getD_some] at hit ⊢
-          have hcl := (hok.2 st.states[s] (Array.getElem_mem_toList hs')).withItems st.states
-          exact hcl.vclosure it hit p hp x hx j hj c hc
-        · have h0 : (withItems C st.states).items[0]? = some (Gen.norm I0) := hok.1
-          constructor
-          · simp only [listMem, Cert.itemsOf, h0, Option.getD_some]
-            exact mem_norm.mpr (c1 _ (by simp [Cert.seedIdx, withItems]))
-          · intro it hit
-            simp only [Cert.itemsOf, h0, Option.getD_some] at hit
-            rcases c3 it (mem_norm.mp hit) with hsd | ⟨hd, _⟩
-            · simp only [List.mem_singleton] at hsd; rw [hsd]
-            · exact hd
-
 end Emboss.Lr1
